@@ -136,7 +136,7 @@ CHECKS = [
 ]
 
 MUTANTS = [
-    dict(name="revert F1 fix (long last bin accepted)", file="util.py", old="if max(last_sizes) > binsize:", new="if False:",
+    dict(name="revert F1 fix (long last bin accepted)", file="util.py", old="if max_last > binsize:", new="if False:",
          checks=["get_binsize"]),
     dict(name="binnify: last edge not clamped", file="util.py", old="binedges[-1] = clen", new="pass", checks=["binnify"]),
     dict(name="binnify: floor instead of ceil", file="util.py", old="n_bins = int(np.ceil(clen / binsize))",
